@@ -76,6 +76,9 @@ var failTemplates = []failTpl{
 	{"break-in-lambda-outside-loop", "lang-error", func(r *core.Rng, _ []string) string {
 		return core.Pick(r, []string{`(() => { continue })()`, `(() => { if true { break }; 1 })()`, `(() => { hh := x => { break }; hh(1) + 1 })()`, `for 2 { (() => { break })() }`})
 	}},
+	{"panic-inside-eval-in-function", "panic:runtime", func(r *core.Rng, _ []string) string {
+		return core.Pick(r, []string{`(() => { ev9 := c => eval(c); ev9("1 / 0") })()`, `(() => { ev9 := c => { println("evaluating"); eval(c) }; ev9("5 % 0") + 1 })()`, `eval("1 / 0")`})
+	}},
 	{"div0-in-lambda", "panic:runtime", func(_ *core.Rng, _ []string) string { return `(() => { z9 := 0; 1 / z9 })()` }},
 	{"negshift-in-lambda", "panic:runtime", func(_ *core.Rng, _ []string) string { return `(() => { z9 := 0 - 1; 1 << z9 })()` }},
 	{"div0-in-nested-call-in-loop", "panic:runtime", func(r *core.Rng, _ []string) string {
@@ -229,9 +232,15 @@ func (c10) Generate(r *core.Rng, run int, tier string) *core.History {
 		}
 		return core.Event{Ev: "input", Tag: "fail", Key: tpl.key, Text: text, Fault: f}
 	}
+	var resubmit []string
 	addFail := func() {
 		ev := mkFail()
 		h.Events = append(h.Events, ev)
+		if ev.Fault != nil && ev.Fault.Kind == "deadline" && fr.Bool(.5) {
+			// the same text again later, uncancelled, in H and H': whatever the cancelled evaluation left behind
+			// (memoized partial results...) must not change what it computes
+			resubmit = append(resubmit, ev.Text)
+		}
 		if strings.HasPrefix(ev.Key, "regonly-") || fr.Bool(.1) {
 			// any multiplicity: leaks that only show after several failures (8 register slots, depth levels)
 			for k := 7 + fr.Intn(4); k > 0; k-- {
@@ -250,6 +259,9 @@ func (c10) Generate(r *core.Rng, run int, tier string) *core.History {
 	for pi < len(pos) {
 		addFail()
 		pi++
+	}
+	for _, t := range resubmit {
+		h.Events = append(h.Events, core.Event{Ev: "input", Tag: "base", Text: t})
 	}
 	// probes (DESIGN 5.6): output reaches the writer, a function that prints, a counted loop,
 	// recursion to MaxDepth-ε, a read of a global.
